@@ -66,7 +66,7 @@ def _base_table(rng, R, P, no, nc):
 
     def val():
         while True:
-            v = rng.randint(-64, 64) / 16
+            v = rng.randint(-512, 512) / 64
             if v not in used:
                 used.add(v)
                 return v
